@@ -8,6 +8,7 @@ import (
 	"sync/atomic"
 	"time"
 	"unicode"
+	"unicode/utf8"
 
 	"github.com/goplus/xgo/ast"
 	"github.com/goplus/xgo/format"
@@ -217,6 +218,7 @@ type verdict struct {
 	nIn      int
 	detail   string
 	byDesign string // non-empty: mismatch explained by import sorting
+	corr     string // non-empty: the harness' raw-source lexer and the real scanner read different comments
 }
 
 // checkComments evaluates C21 on the real formatter for the (valid) source src.
@@ -238,9 +240,27 @@ func checkComments(s *source, src []byte, timeout time.Duration) verdict {
 	if outPanic {
 		return verdict{what: "outscan", nIn: len(inC), detail: "scanner panics on the formatted output"}
 	}
+	// The reference list of the input's comments comes from the RAW source via the
+	// harness' own lexer (lexer.go), not from the scanner of the tree under test (a scanner
+	// that drops comment bytes would hide the loss on both sides); the output is read the
+	// same way.  Agreement of the two readers is a correspondence check (corr), not part of
+	// the property.
+	inRef, outRef := lexComments(src), lexComments(r.out)
+	corr := ""
+	if x, y := normSeq(inRef), normSeq(inC); !eqSeq(x, y) {
+		l, e := multisetDiff(x, y)
+		corr = fmt.Sprintf("input: raw-source lexer %d comments, real scanner %d; only-lexer=%q only-scanner=%q", len(x), len(y), trunc(l, 3), trunc(e, 3))
+	} else if x, y := normSeq(outRef), normSeq(outC); !eqSeq(x, y) {
+		l, e := multisetDiff(x, y)
+		corr = fmt.Sprintf("output: raw-source lexer %d comments, real scanner %d; only-lexer=%q only-scanner=%q", len(x), len(y), trunc(l, 3), trunc(e, 3))
+	}
+	inC, outC = inRef, outRef
+	if utf8.Valid(src) && !utf8.Valid(r.out) {
+		return verdict{what: "invalid-utf8", nIn: len(inC), corr: corr, detail: "input is valid UTF-8, formatted output is not"}
+	}
 	a, b := normSeq(inC), normSeq(outC)
 	if eqSeq(a, b) {
-		return verdict{ok: true, nIn: len(inC)}
+		return verdict{ok: true, nIn: len(inC), corr: corr}
 	}
 	// import sorting: compare comments inside parenthesised import declarations as a
 	// multiset, the others as a sequence.
@@ -251,11 +271,11 @@ func checkComments(s *source, src []byte, timeout time.Duration) verdict {
 		sort.Strings(inI)
 		sort.Strings(outI)
 		if eqSeq(inO, outO) && eqSeq(inI, outI) {
-			return verdict{ok: true, nIn: len(inC), byDesign: "import-sort"}
+			return verdict{ok: true, nIn: len(inC), byDesign: "import-sort", corr: corr}
 		}
 	}
 	lost, extra := multisetDiff(a, b)
-	v := verdict{nIn: len(inC), lost: lost, extra: extra, byDesign: byDesign}
+	v := verdict{nIn: len(inC), lost: lost, extra: extra, byDesign: byDesign, corr: corr}
 	switch {
 	case len(lost) == 0 && len(extra) == 0:
 		v.what = "reordered"
@@ -301,6 +321,8 @@ func trunc(xs []string, n int) []string {
 
 var styles = []string{"blk", "line", "mblk", "hash", "own", "ownblk", "free", "doc2", "blk2", "hash1", "ownhash", "rich", "ownrich", "indrich"}
 var richStyles = []string{"rich", "ownrich", "indrich"}
+
+func init() { styles = append(styles, uniStyles...) }
 
 func styleText(style string, k int) string {
 	switch style {
